@@ -8,6 +8,7 @@
   1. `rdDownPos_le q : rdDownPos q ≤ q`, `le_rdUpPos q : q ≤ rdUpPos q`            (all q)
      `rdDown_le q : rdDown q ≤ q`, `le_rdUp q : q ≤ rdUp q`                        (all q)
      `rdDown_le_real`, `le_rdUp_real` (the same after the cast to ℝ, for a real below/above q)
+     `rdDown_ge q : q − |q|·10^-79 ≤ rdDown q`, `rdUp_le q : rdUp q ≤ q + |q|·10^-79`   (all q; `eps = 10^-79`)
   2. `mem_pt`, `mem_add`, `mem_sub`, `mem_neg`, `mem_mul`, `mem_scale`, `mem_invPos`, `mem_sqrN`
      (inclusion monotonicity of `I.pt/add/sub/neg/mul/scale/invPos` and of `sqrN`),
      `mem_of_contains` (`I.contains a q = true ↔ q ∈ᵢ a`)
@@ -67,6 +68,71 @@ theorem rdDown_le_real {q : Rat} {x : ℝ} (h : (q : ℝ) ≤ x) : ((rdDown q : 
 theorem le_rdUp_real {q : Rat} {x : ℝ} (h : x ≤ (q : ℝ)) : x ≤ ((rdUp q : ℚ) : ℝ) :=
   le_trans h (by exact_mod_cast le_rdUp q)
 
+/-! ### relative precision: 80 significant digits -/
+
+/-- the relative rounding unit `10^-79` -/
+def eps : ℚ := 1 / 10 ^ 79
+
+theorem eps_pos : 0 < eps := by unfold eps; positivity
+
+theorem inv_pow10_le (q : Rat) (hq : 0 < q) : 1 / pow10 (P - 1 - ilog10 q) ≤ q * eps := by
+  have h1 := (ilog10_spec q hq).1
+  rw [pow10_eq_zpow, show P - 1 - ilog10 q = (79 : Int) - ilog10 q from rfl, zpow_sub₀ (by norm_num), one_div_div]
+  unfold eps
+  rw [div_le_iff₀ (by positivity)]
+  calc (10 : ℚ) ^ ilog10 q ≤ q := h1
+    _ = q * (1 / 10 ^ 79) * 10 ^ (79 : Int) := by
+        rw [show ((10 : ℚ) ^ (79 : Int)) = 10 ^ 79 from by norm_cast]; field_simp
+
+theorem rdDownPos_ge (q : Rat) (hq : 0 < q) : q - q * eps ≤ rdDownPos q := by
+  have h := inv_pow10_le q hq
+  unfold rdDownPos
+  simp only
+  have hp := pow10_pos (P - 1 - ilog10 q)
+  have hf : q * pow10 (P - 1 - ilog10 q) - 1 < ((q * pow10 (P - 1 - ilog10 q)).floor : ℚ) :=
+    Int.sub_one_lt_floor (q * pow10 (P - 1 - ilog10 q))
+  rw [le_div_iff₀ hp]
+  have : (q - 1 / pow10 (P - 1 - ilog10 q)) * pow10 (P - 1 - ilog10 q) = q * pow10 (P - 1 - ilog10 q) - 1 := by
+    field_simp
+  nlinarith
+
+theorem rdUpPos_le (q : Rat) (hq : 0 < q) : rdUpPos q ≤ q + q * eps := by
+  have h := inv_pow10_le q hq
+  unfold rdUpPos
+  simp only
+  have hp := pow10_pos (P - 1 - ilog10 q)
+  have hf : ((q * pow10 (P - 1 - ilog10 q)).ceil : ℚ) < q * pow10 (P - 1 - ilog10 q) + 1 := by
+    have := Rat.ceil_lt (x := q * pow10 (P - 1 - ilog10 q))
+    exact_mod_cast this
+  rw [div_le_iff₀ hp]
+  have : (q + 1 / pow10 (P - 1 - ilog10 q)) * pow10 (P - 1 - ilog10 q) = q * pow10 (P - 1 - ilog10 q) + 1 := by
+    field_simp
+  nlinarith
+
+theorem rdDown_ge (q : Rat) : q - |q| * eps ≤ rdDown q := by
+  unfold rdDown
+  split
+  · rename_i h; have : q = 0 := by simpa using h
+    rw [this]; simp
+  · split
+    · rename_i h; rw [abs_of_pos h]; exact rdDownPos_ge q h
+    · rename_i h0 h
+      have hq : q < 0 := lt_of_le_of_ne (not_lt.1 h) (by simpa using h0)
+      rw [abs_of_neg hq]
+      have := rdUpPos_le (-q) (by linarith); linarith
+
+theorem rdUp_le (q : Rat) : rdUp q ≤ q + |q| * eps := by
+  unfold rdUp
+  split
+  · rename_i h; have : q = 0 := by simpa using h
+    rw [this]; simp
+  · split
+    · rename_i h; rw [abs_of_pos h]; exact rdUpPos_le q h
+    · rename_i h0 h
+      have hq : q < 0 := lt_of_le_of_ne (not_lt.1 h) (by simpa using h0)
+      rw [abs_of_neg hq]
+      have := rdDownPos_ge (-q) (by linarith); linarith
+
 example : rdDown (1 / 3) ≤ 1 / 3 ∧ (1 / 3 : Rat) ≤ rdUp (1 / 3) := ⟨rdDown_le _, le_rdUp _⟩
 
 /-! ## 2. interval operations -/
@@ -104,7 +170,8 @@ theorem mem_neg {a : I} {x : ℝ} (hx : x ∈ᵢ a) : (-x) ∈ᵢ a.neg := by
   · show -x ≤ (((-a.lo : ℚ)) : ℝ); push_cast; linarith [hx.1]
 
 /-- a product of two reals from two intervals lies between the least and the greatest corner product -/
-theorem mul_corner_bounds {al ah bl bh x y : ℝ} (hx1 : al ≤ x) (hx2 : x ≤ ah) (hy1 : bl ≤ y) (hy2 : y ≤ bh) :
+theorem mul_corner_bounds {α : Type*} [Field α] [LinearOrder α] [IsStrictOrderedRing α]
+    {al ah bl bh x y : α} (hx1 : al ≤ x) (hx2 : x ≤ ah) (hy1 : bl ≤ y) (hy2 : y ≤ bh) :
     min (min (al * bl) (al * bh)) (min (ah * bl) (ah * bh)) ≤ x * y ∧
     x * y ≤ max (max (al * bl) (al * bh)) (max (ah * bl) (ah * bh)) := by
   constructor
